@@ -1,0 +1,117 @@
+//go:build verif
+
+package astisub
+
+import (
+	"crypto/sha256"
+	"encoding/hex"
+	"fmt"
+	"sort"
+)
+
+// VerifStateDigest returns a SHA-256 over a canonical serialisation of the package-level tables, so that a monitor
+// can check that no call leaves mutable state behind. It is only compiled with the "verif" build tag.
+func VerifStateDigest() string {
+	h := sha256.New()
+	w := func(format string, a ...interface{}) { fmt.Fprintf(h, format, a...) }
+
+	// Bytes and colors
+	w("bom=%x ls=%x sp=%x|", BytesBOM, bytesLineSeparator, bytesSpace)
+	for _, c := range []*Color{ColorBlack, ColorBlue, ColorCyan, ColorGray, ColorGreen, ColorLime, ColorMagenta, ColorMaroon,
+		ColorNavy, ColorOlive, ColorPurple, ColorRed, ColorSilver, ColorTeal, ColorYellow, ColorWhite} {
+		w("color=%+v|", *c)
+	}
+	w("just=%d,%d,%d,%d|", JustificationUnchanged, JustificationLeft, JustificationCentered, JustificationRight)
+	w("err=%v,%v,%v|", ErrInvalidExtension, ErrNoSubtitlesToWrite, ErrNoValidTeletextPID)
+	w("srtsep=%x vttsep=%x it=%x,%x|", bytesSRTTimeBoundariesSeparator, bytesWebVTTTimeBoundariesSeparator, bytesWebVTTItalicStartTag, bytesWebVTTItalicEndTag)
+
+	// Regexps and replacers (probed)
+	w("re=%s|%s|%s|%s|%s|", ssaRegexpEffect, ttmlRegexpClockTimeFrames, ttmlRegexpOffsetTime, webVTTRegexpInlineTimestamp, webVTTRegexpTag)
+	w("esc=%q unesc=%q|", escapeHTML("&< >\"'x"), unescapeHTML("&amp;&lt;&nbsp;&gt;&quot;x"))
+
+	// Teletext tables
+	for _, cs := range []*teletextCharset{teletextCharsetG0CyrillicOption1, teletextCharsetG0CyrillicOption2, teletextCharsetG0CyrillicOption3,
+		teletextCharsetG0Greek, teletextCharsetG0Latin, teletextCharsetG0Arabic, teletextCharsetG0Hebrew, teletextCharsetG2Latin,
+		teletextCharsetG2Arabic, teletextCharsetG2Cyrillic, teletextCharsetG2Greek} {
+		w("cs=%x|", *cs)
+	}
+	for _, ns := range []*teletextNationalSubset{teletextNationalSubsetCzechSlovak, teletextNationalSubsetEnglish, teletextNationalSubsetEstonian,
+		teletextNationalSubsetFrench, teletextNationalSubsetGerman, teletextNationalSubsetItalian, teletextNationalSubsetLettishLithuanian,
+		teletextNationalSubsetPolish, teletextNationalSubsetPortugueseSpanish, teletextNationalSubsetRomanian,
+		teletextNationalSubsetSerbianCroatianSlovenian, teletextNationalSubsetSwedishFinnishHungarian, teletextNationalSubsetTurkish} {
+		w("ns=%x|", *ns)
+	}
+	w("pos=%v|", teletextNationalSubsetCharactersPositionInG0)
+	var k1 []int
+	for k := range teletextCharsets {
+		k1 = append(k1, int(k))
+	}
+	sort.Ints(k1)
+	for _, a := range k1 {
+		var k2 []int
+		for k := range teletextCharsets[uint8(a)] {
+			k2 = append(k2, int(k))
+		}
+		sort.Ints(k2)
+		for _, b := range k2 {
+			v := teletextCharsets[uint8(a)][uint8(b)]
+			w("tc[%d][%d]=%p,%p,%p|", a, b, v.g0, v.g2, v.national)
+		}
+	}
+
+	// Bidirectional maps (they hide their content: probed over their key domains)
+	var k3 []int
+	for k := range stlCharacterCodeTables {
+		k3 = append(k3, int(k))
+	}
+	sort.Ints(k3)
+	for _, t := range k3 {
+		for k := 0; k < 256; k++ {
+			if v, ok := stlCharacterCodeTables[uint16(t)].Get(k); ok {
+				w("cct[%d][%d]=%q|", t, k, v)
+				if inv, ok := stlCharacterCodeTables[uint16(t)].GetInverse(v); ok {
+					w("inv=%v|", inv)
+				}
+			}
+		}
+	}
+	for k := 0; k < 256; k++ {
+		if v, ok := stlUnicodeMapping.Get(byte(k)); ok {
+			w("um[%d]=%q|", k, v)
+		}
+		if v, ok := stlUnicodeDiacritic.Get(byte(k)); ok {
+			w("ud[%d]=%q|", k, v)
+		}
+	}
+	for r := rune(0); r < 0x2700; r++ {
+		if v, ok := stlUnicodeMapping.GetInverse(string(r)); ok {
+			w("umi[%d]=%v|", r, v)
+		}
+		if v, ok := stlUnicodeDiacritic.GetInverse(string(r)); ok {
+			w("udi[%d]=%v|", r, v)
+		}
+	}
+	for _, k := range []string{"STL25.01", "STL30.01", "STL24.01", ""} {
+		v, ok := stlFramerateMapping.Get(k)
+		w("fr[%q]=%v,%v|", k, v, ok)
+	}
+	for k := 0; k <= 120; k++ {
+		if v, ok := stlFramerateMapping.GetInverse(k); ok {
+			w("fri[%d]=%v|", k, v)
+		}
+	}
+	for _, l := range []string{LanguageChinese, LanguageEnglish, LanguageFrench, LanguageJapanese, LanguageNorwegian, "", "german"} {
+		v1, ok1 := stlLanguageMapping.GetInverse(l)
+		v2, ok2 := ttmlLanguageMapping.GetInverse(l)
+		w("lang[%q]=%v,%v,%v,%v|", l, v1, ok1, v2, ok2)
+	}
+	for _, c := range []string{"75", "09", "0F", "69", "1E", "00", "zh", "en", "fr", "ja", "no", "de"} {
+		v1, ok1 := stlLanguageMapping.Get(c)
+		v2, ok2 := ttmlLanguageMapping.Get(c)
+		w("code[%q]=%v,%v,%v,%v|", c, v1, ok1, v2, ok2)
+	}
+	for _, c := range []string{"#00ffff", "#FFFF00", "#ff0000", "#ff00ff", "#00ff00", "#123456", ""} {
+		w("css[%q]=%q|", c, cssColor(c))
+	}
+	return hex.EncodeToString(h.Sum(nil))
+}
